@@ -381,6 +381,7 @@ func (t *genTable[Obj]) RegisterInitializer(txn WriteTxn, name string) func(Writ
 		// Clone
 		init2 := *table.init
 		init2.pending = slices.Clone(init2.pending)
+		init2.tokens = slices.Clone(init2.tokens)
 		init = &init2
 		table.init = init
 	}
@@ -389,22 +390,29 @@ func (t *genTable[Obj]) RegisterInitializer(txn WriteTxn, name string) func(Writ
 		panic(fmt.Sprintf("RegisterInitializer: %q already registered", name))
 	}
 
+	// The registration is identified by its token and not by its name: the name
+	// can be registered again once this registration is done (or was aborted) and
+	// the function returned here must not complete that other registration.
+	token := &initToken{name}
 	init.pending = append(init.pending, name)
+	init.tokens = append(init.tokens, token)
 	return func(txn WriteTxn) {
 		table := txn.unwrap().tableEntries[t.pos]
 		// The only state is the transaction's table entry: marking in a transaction
 		// that gets aborted has no effect and marking twice is a no-op.
-		if table.init == nil || !slices.Contains(table.init.pending, name) {
+		if table.init == nil {
+			return
+		}
+		idx := slices.Index(table.init.tokens, token)
+		if idx < 0 {
 			return
 		}
 		if !table.locked {
 			panic(fmt.Sprintf("RegisterInitializer/MarkDone: Table %q not locked for writing", t.table))
 		}
 		init := *table.init
-		init.pending = slices.DeleteFunc(
-			slices.Clone(init.pending),
-			func(n string) bool { return n == name },
-		)
+		init.pending = slices.Delete(slices.Clone(init.pending), idx, idx+1)
+		init.tokens = slices.Delete(slices.Clone(init.tokens), idx, idx+1)
 		table.init = &init
 	}
 }
